@@ -180,10 +180,17 @@ def bounds(prog: Program, rep: Report):
     sites = [("KDRandomCrop", "get_params"), ("KDTwoRandomCrop", "get_params"), ("KDRandomResizedCrop", "get_params"),
              ("KDSemsegRandomCrop", "get_params"), ("KDRandomErasing", "forward")]
     n_ob = 0
+    done_fns: Set[str] = set()
+    per_fn: Dict[str, int] = {}
     for cname, meth in sites:
         C = prog.cls(cname)
-        fi = C.methods.get(meth)
+        fi = C.lookup(meth)  # own or inherited: the method that runs for this class
         rep.require(fi is not None, f"anchor-missing: {cname}.{meth}")
+        if fi.qualname in done_fns:
+            n_ob += per_fn.get(fi.qualname, 0)  # an inherited method serves this class too: its obligations cover both
+            continue
+        done_fns.add(fi.qualname)
+        n_before = n_ob
         fa = fa_of(prog, fi)
         cfg = fa.cfg
         rep.analysed_add("functions", f"{fi.module.relpath}:{fi.qualname}")
@@ -254,6 +261,7 @@ def bounds(prog: Program, rep: Report):
                         f"{ast.unparse(ext)} along '{D}': hi - 1 + extent - {D} = {p!r} is not <= 0 - the window can leave the image "
                         f"(or the offset is paired with the other axis)" if lo_ok else f"the lower bound {ast.unparse(lo)} of "
                         f"'{ov}' can be negative"), line=call.lineno, clause="C14.1")
+            per_fn[fi.qualname] = n_ob - n_before
     rep.floor("offset draws checked against their extent and image dimension", n_ob, 10)
 
 
@@ -511,7 +519,22 @@ def ctx_truth(prog: Program, rep: Report):
                     arg = oc.args[pos] if len(oc.args) > pos else next((k.value for k in oc.keywords if k.arg == role), None)
                     if isinstance(arg, ast.Name) and arg.id == val.id:
                         matched = (on, arg)
-                ok = matched is not None and cfg.reaching().get(matched[0], {}).get(val.id) == cfg.reaching().get(n, {}).get(val.id)
+                    # crop(img, *box): the role's argument is box[k]; the recorded variable must be unpacked from that box
+                    st_i = next((i for i, a in enumerate(oc.args) if isinstance(a, ast.Starred)), None)
+                    if matched is None and st_i is not None and st_i <= pos and isinstance(oc.args[st_i].value, ast.Name) \
+                            and not oc.args[st_i + 1:]:
+                        box, k = oc.args[st_i].value.id, pos - st_i
+                        rdefs = cfg.reaching().get(n, {}).get(val.id, set())
+                        if len(rdefs) == 1:
+                            (d,) = rdefs
+                            ds = cfg.nodes[d].ast if cfg.nodes[d].kind == "stmt" else None
+                            if isinstance(ds, ast.Assign) and isinstance(ds.targets[0], ast.Tuple) and _n(ds.value) == box \
+                                    and len(ds.targets[0].elts) > k and _n(ds.targets[0].elts[k]) == val.id and \
+                                    cfg.reaching().get(d, {}).get(box) == cfg.reaching().get(on, {}).get(box):
+                                starred_ok = (on, oc.args[st_i])
+                                matched = starred_ok
+                ok = matched is not None and (isinstance(matched[1], ast.Starred) or cfg.reaching().get(matched[0], {}).get(
+                    val.id) == cfg.reaching().get(n, {}).get(val.id))
                 if matched is not None:
                     group = by_suffix.setdefault((n, suffix), set())
                     group.add(matched[0])
@@ -577,8 +600,8 @@ def paired(prog: Program, rep: Report):
                     rep.bad("G9.paired-geometry", fi, f"op:{nm}", f"{nm} is applied to the {'image' if xs else 'mask'} only: image "
                             f"and mask are no longer aligned", line=(xs or ms)[0][1].lineno, clause="C14.3")
                     continue
-                geo_x = [_geo_args(c) for _, c in xs]
-                geo_m = [_geo_args(c) for _, c in ms]
+                geo_x = [_geo_args(c, fa, n_) for n_, c in xs]
+                geo_m = [_geo_args(c, fa, n_) for n_, c in ms]
                 same_args = all(g == geo_x[0] for g in geo_x + geo_m)
                 problems = []
                 if not same_args:
@@ -666,17 +689,25 @@ def _geo_exprs(c: ast.Call) -> List[ast.AST]:
     return list(c.args[1:]) + [k.value for k in c.keywords if k.arg not in NON_GEOMETRIC_KW]
 
 
-def _geo_args(c: ast.Call):
+def _arg_text(a: ast.AST, fa: Optional[FA], at: Optional[int]) -> str:
+    """Normal form of an argument (temporaries and parameter copies resolved), as text."""
+    if fa is None or at is None:
+        return ast.unparse(a)
+    import re
+    return re.sub(r"@\[[0-9, ]*\]", "", show(fa.sym.term(a, at)))
+
+
+def _geo_args(c: ast.Call, fa: Optional[FA] = None, at: Optional[int] = None):
     nm = _n(c.func) or c.func.attr
     geo = OP_GEOMETRY.get(nm, [])
     out = {}
     for i, a in enumerate(c.args[1:]):
         key = geo[i] if i < len(geo) else f"arg{i}"
         if key not in NON_GEOMETRIC_KW:
-            out[key] = ast.unparse(a)
+            out[key] = _arg_text(a, fa, at)
     for k in c.keywords:
         if k.arg not in NON_GEOMETRIC_KW:
-            out[k.arg] = ast.unparse(k.value)
+            out[k.arg] = _arg_text(k.value, fa, at)
     # positional arguments beyond the geometry (interpolation, fill) are not geometric
     return tuple(sorted((k, v) for k, v in out.items() if not k.startswith("arg")))
 
